@@ -109,7 +109,7 @@ func baseForms() []aspec.Base {
 		{Form: "flag", Segs: []string{"f3"}, AlsoServers: true},
 		{Form: "servers", Segs: []string{"eu", "x", "eu"}, ViaVariables: true, RepeatVar: true},             // /{ver}/x/{ver}
 		{Form: "servers", Segs: []string{"api", "v7"}, ViaVariables: true, Absolute: true, RepeatVar: true}, // https://{ver}.{host}/api/{ver}
-		{Form: "servers", Segs: []string{"café", "my api"}, Absolute: true},                                // percent-encoded in the URL: /caf%C3%A9/my%20api
+		{Form: "servers", Segs: []string{"café", "my api"}, Absolute: true},                                 // percent-encoded in the URL: /caf%C3%A9/my%20api
 		{Form: "flag", Segs: []string{"a+b", "50%"}},
 	}
 }
